@@ -25,6 +25,8 @@ VERIF = os.path.dirname(HERE)
 #   ("local", c_function, c_local_var, coq_name) -- sizeof a function-local variable, read from the
 #                                                   compiler's debug information (gdb "info scope")
 PROBES = []
+FAILED = []      # items that could not be read from the source in this run (their previous values are kept)
+OLD_DEFS, OLD_TABLES = {}, {}     # the values in the existing Generated.v
 
 def probe(cfile, items, pre=""):
     PROBES.append((cfile, items, pre))
@@ -219,37 +221,65 @@ def run_probes(repo, extra=None):
         lib = os.path.join(tmp, "libprobe.a")
         if subprocess.run(["ar", "rcs", lib] + objs).returncode != 0:
             return None
-        procs = []
-        for k, (cfile, items, pre) in enumerate(allp):
-            src = os.path.join(tmp, "probe%d.c" % k)
-            exe = os.path.join(tmp, "probe%d" % k)
+        def build_and_run(tag, cfile, items, pre):
+            """(ok, defs, tables, message) for one probe program"""
+            src = os.path.join(tmp, "probe%s.c" % tag)
+            exe = os.path.join(tmp, "probe%s" % tag)
             write_probe(repo, cfile, items, pre, src)
             cmd = ["cc", "-w", "-O0", "-g", "-DHAVE_CONFIG_H"] + include_flags(repo) + [src, lib, "-o", exe, "-Wl,--allow-multiple-definition"]
-            procs.append((cfile, exe, items, subprocess.Popen(cmd, stdout=subprocess.PIPE, stderr=subprocess.STDOUT)))
-        for cfile, exe, items, p in procs:
-            out, _ = p.communicate()
+            p = subprocess.run(cmd, stdout=subprocess.PIPE, stderr=subprocess.STDOUT)
             if p.returncode != 0:
-                sys.stderr.write("translator: cannot compile probe for %s:\n%s\n" % (cfile, out.decode(errors="replace")[-2000:]))
-                return None
-            r = subprocess.run([exe], stdout=subprocess.PIPE, stderr=subprocess.STDOUT, timeout=60)
+                return False, [], [], "cannot compile probe for %s:\n%s" % (cfile, p.stdout.decode(errors="replace")[-1500:])
+            try:
+                r = subprocess.run([exe], stdout=subprocess.PIPE, stderr=subprocess.STDOUT, timeout=60)
+            except subprocess.TimeoutExpired:
+                return False, [], [], "probe for %s does not terminate" % cfile
             if r.returncode != 0:
-                sys.stderr.write("translator: probe for %s failed\n" % cfile)
-                return None
+                return False, [], [], "probe for %s failed" % cfile
+            d, t = [], []
             for line in r.stdout.decode().splitlines():
                 parts = line.split()
                 if not parts:
                     continue
                 if parts[0] == "DEF":
-                    defs.append((parts[1], int(parts[2])))
+                    d.append((parts[1], int(parts[2])))
                 elif parts[0] == "TABLE":
-                    tables.append((parts[1], [int(x) for x in parts[2:]]))
+                    t.append((parts[1], [int(x) for x in parts[2:]]))
             for it in items:
                 if it[0] == "local":
                     v = local_sizeof(exe, it[1], it[2])
                     if v is None:
-                        sys.stderr.write("translator: no debug information for %s in %s (%s)\n" % (it[2], it[1], cfile))
-                        return None
-                    defs.append((it[3], v))
+                        return False, [], [], "no debug information for %s in %s (%s)" % (it[2], it[1], cfile)
+                    d.append((it[3], v))
+            return True, d, t, ""
+
+        from concurrent.futures import ThreadPoolExecutor
+        with ThreadPoolExecutor(max_workers=16) as ex:
+            results = list(ex.map(lambda kp: build_and_run(str(kp[0]), *kp[1]), enumerate(allp)))
+        for k, ((cfile, items, pre), (ok, d, t, msg)) in enumerate(zip(allp, results)):
+            if ok:
+                defs += d
+                tables += t
+                continue
+            # the probe as a whole does not build any more (an identifier was renamed, a field removed ...):
+            # item by item, so that only what really cannot be read keeps its previous value
+            for j, it in enumerate(items):
+                ok1, d1, t1, msg1 = build_and_run("%d_%d" % (k, j), cfile, [it], pre)
+                if ok1:
+                    defs += d1
+                    tables += t1
+                else:
+                    what = it[2] if it[0] in ("table", "macro", "str", "dtype") else (it[3] if it[0] == "local" else "raw block %d" % j)
+                    FAILED.append({"file": cfile, "item": str(what), "kind": it[0], "message": msg1[-800:]})
+                    # the previous values, at the same place in the file (so that nothing else is rebuilt)
+                    names = {"macro": [it[2]], "local": [it[3]] if it[0] == "local" else [],
+                             "dtype": [it[2] + "_max_read", it[2] + "_block_size", it[2] + "_extra_size"]}.get(it[0], [])
+                    for nm in names:
+                        if nm in OLD_DEFS:
+                            defs.append((nm, OLD_DEFS[nm]))
+                    if it[0] in ("table", "str") and it[2] in OLD_TABLES:
+                        tables.append((it[2], OLD_TABLES[it[2]]))
+                    sys.stderr.write("translator: %s: %s cannot be read: %s\n" % (cfile, what, msg1[-300:]))
     finally:
         shutil.rmtree(tmp, ignore_errors=True)
     return defs, tables
@@ -296,20 +326,40 @@ def main():
         extra = gen_more.PROBES
     except ImportError:
         pass
+    if os.path.exists(a.out):
+        import re
+        prev = open(a.out).read()
+        for m in re.finditer(r"^Definition (\w+) : N := (\d+)\.", prev, re.M):
+            OLD_DEFS[m.group(1)] = int(m.group(2))
+        for m in re.finditer(r"^Definition (\w+) : list N :=\s*\[([^\]]*)\]\.", prev, re.M):
+            OLD_TABLES[m.group(1)] = [int(x) for x in re.findall(r"\d+", m.group(2))]
     r = run_probes(a.repo, extra)
+    status = os.path.join(VERIF, "build", "translator_status.json")
+    os.makedirs(os.path.dirname(status), exist_ok=True)
     if r is None:
+        json.dump({"global": True, "failed": FAILED}, open(status, "w"))
         return 2
     text = render(*r)
     old = None
     if os.path.exists(a.out):
         old = open(a.out).read()
+    if FAILED and old is not None:
+        # keep the previous definitions of what could not be read (they are stale: the checks of the properties
+        # anchored in those files report the broken tie)
+        import re
+        have = set(re.findall(r"^Definition (\w+) ", text, re.M))
+        blocks = re.findall(r"^(Definition (\w+) [^\n]*(?:\n(?!Definition ).*)*)", old, re.M)
+        stale = [blk.rstrip() for blk, name in blocks if name not in have]
+        if stale:
+            text = text.rstrip("\n") + "\n\n(* not readable from the source in this run: previous values kept *)\n" + "\n".join(stale) + "\n"
+    json.dump({"global": False, "failed": FAILED}, open(status, "w"))
     if old != text:
         with open(a.out, "w") as f:
             f.write(text)
-        print("translator: Generated.v rewritten")
+        print("translator: Generated.v rewritten" + (" (%d items kept from the previous run)" % len(FAILED) if FAILED else ""))
     else:
         print("translator: Generated.v unchanged")
-    return 0
+    return 3 if FAILED else 0
 
 
 if __name__ == "__main__":
